@@ -188,6 +188,12 @@ def check_values(ctx, leaves):
                 if r[0] == "agg" and path_ends(r[2], "OrderedFloat::OrderedFloat"):
                     r = r[3][0]
                 good = r[0] == "cast" and r[1] == spec[1] and opnd(r[2]) in ("a", "a.0")
+        elif kind == "clamp" and len(cps) == 1 and not cps[0].conds and callee_is(cps[0].ret, "Ord::clamp") and len(cps[0].ret[3]) == 3:
+            # a.clamp(min(b, c), max(b, c)): the ordered bounds taken directly - for either order of b and c the same call as
+            # "swap the bounds if b > c, then a.clamp(b, c)"
+            x, lo, hi = cps[0].ret[3]
+            good = opnd(x) == "a" and callee_is(lo, "Ord::min", "cmp::min") and callee_is(hi, "Ord::max", "cmp::max") and len(lo[3]) == 2 and len(hi[3]) == 2 and \
+                sorted(opnd(y) for y in lo[3]) == ["b", "c"] and sorted(opnd(y) for y in hi[3]) == ["b", "c"] and len(cps[0].calls()) == 3
         elif kind == "clamp":
             good = len(cps) == 2
             for q in cps:
@@ -507,6 +513,27 @@ def check(ctx):
                 qs = [q for q in closure_paths(ctx, clo) if q.end == "return"]
                 okw = len(qs) == 1 and callee_is(qs[0].ret, "bool::then_some") and callee_is(qs[0].ret[3][0], "PartialEq::eq") and \
                     peel(qs[0].ret[3][1], ())[0] == "field" and peel(qs[0].ret[3][1], ())[2] == 1 and mentions(qs[0].ret[3][0], ("param", 2))
+    if not okw:
+        # the same clause for `iter().find(|(k, _)| *k == name)`: the first entry whose key equals the name (keys are unique), its
+        # value cloned and performed; no entry -> the documented panic
+        lp = [p for p in ctx.paths(wi) if p.end != "unreachable"]
+        rp = [p for p in lp if p.end == "return"]
+        if len(rp) == 1 and callee_is(rp[0].ret, "Instruction::perform") and len(rp[0].ret[3]) == 2 and rp[0].ret[3][1] == ("param", 1):
+            inst = peel(rp[0].ret[3][0], ())
+            b = {}
+            okf = match(inst, Call("Clone::clone", Through(Field(Through(Field(Bind("find", Call("Iterator::find", Through(Call("HashMap::iter", lambda e: self_field(e, "input_instructions"))), ANY, nargs=2)), 0, "Some")), 1)), nargs=1), b)
+            if okf:
+                fc = b["find"]
+                qs = [q for q in closure_paths(ctx, fc[3][1]) if q.end != "unreachable"] if fc[3][1][0] == "agg" and fc[3][1][1] == "closure" else []
+                okf = len(qs) == 1 and qs[0].end == "return" and callee_is(qs[0].ret, "PartialEq::eq") and len(qs[0].ret[3]) == 2
+                if okf:
+                    sides = [peel(a, ()) for a in qs[0].ret[3]]
+                    is_key = lambda a: a[0] == "field" and a[2] == 0 and peel(a[1], ())[:2] == ("cparam", 2)
+                    okf = (is_key(sides[0]) and sides[1] == ("param", 2)) or (is_key(sides[1]) and sides[0] == ("param", 2))
+                okf = okf and all(p.end in ("return", "diverge") for p in lp) and len([c for p in lp for c in p.calls() if callee_is(c, "Instruction::perform")]) == 1
+            okw = okf
+            if okw:
+                detail = "perform(clone(input_instructions.iter().find(key == name)?.1), self)"
     if not okw:
         # the same clause for the keyed lookup `self.input_instructions.get(name)`: HashMap::get finds the entry whose key == name
         from . import ckit as K
